@@ -455,7 +455,18 @@ def h_format(k: int, n: int,
 class _SetCompat(set):
     """the name `set` inside immutable.filenode: CrossHair proxies sets built in traced code, and the unbound builtin
     `set.union(a, b)` refuses the proxy; `a | b` is the same operation"""
-    union = staticmethod(lambda a, b: a | b)
+    def _union(a, *others):
+        out = a
+        for o in others:
+            out = out | o
+        return out
+    union = staticmethod(_union)
+
+    def __getattribute__(self, name):
+        # instance call `s.union(x, y, ...)` must bind the instance as first operand
+        if name == "union":
+            return lambda *others: _SetCompat._union(self, *others)
+        return set.__getattribute__(self, name)
 
 
 filenode.set = _SetCompat
